@@ -190,7 +190,10 @@ def mergeSegs (vectors : Bool) (mode : Nat) (segs : List Seg) (drops : List (Opt
   let n := newDocCount segs drops
   if n = 0 then
     -- nothing survives: an empty segment carries only the `_id` record (as one built from an empty batch)
-    ({ chunkMode := mode, numDocs := 0, fields := (names.take 1).map (fun nm => { name := nm }), stored := [] }, [])
+    -- (the maps are returned all the same: every document of every input is marked as dropped - the
+    -- repair of defect D15; before it no map at all came back)
+    ({ chunkMode := mode, numDocs := 0, fields := (names.take 1).map (fun nm => { name := nm }), stored := [] },
+     remapAll segs drops 0)
   else
   let maps := remapAll segs drops 0
   let stored := (segs.zip maps).flatMap (fun p =>
